@@ -199,6 +199,13 @@ func roundTrip(run *evid.Run, n *bmnumbers.BMNumber, what string) {
 		run.Violation("roundtrip:"+typ+":type-changes-to-"+m.GetTypeName(), map[string]any{"case": what, "exported": s})
 		return
 	}
+	// the integer view of the pattern (what the simulator and simbox consume) must survive as well
+	if u0, e0 := n.ExportUint64(); e0 == nil && b0 <= 64 && !isNaN {
+		if u1, e1 := m.ExportUint64(); e1 != nil || u1 != u0 {
+			run.Violation("roundtrip:"+typ+":uint64-view-changes", map[string]any{"case": what, "exported": s, "uint64_before": u0, "uint64_after": u1, "err_after": fmt.Sprint(e1)})
+			return
+		}
+	}
 	widthStated := statesWidth[typ] || strings.HasPrefix(typ, "fps") || strings.HasPrefix(typ, "fxps") || strings.HasPrefix(typ, "lqs")
 	if widthStated && b1 != b0 {
 		run.Violation("roundtrip:"+typ+":width-changes", map[string]any{"case": what, "exported": s, "bits_before": b0, "bits_after": b1})
